@@ -94,17 +94,21 @@ func (p *principalInstance) doIntentRequestChecks(i Intent) error {
 
 	if !p.targetConnected {
 		logrus.Info("principal: not connected to target")
+		// The verdict of the approval callback is remembered rather than
+		// answered from inside the handshake: the delegate gets exactly one
+		// answer per request, written below.
+		var denial error
 		checkIntentWithCert := func(cert *certs.Certificate) error {
 			p.targetCert = cert
-			err := p.checkIntent(i, cert)
-			if err != nil {
-				WriteIntentDenied(p.delegateConn, err.Error())
-			}
-			return err
+			denial = p.checkIntent(i, cert)
+			return denial
 		}
 		tc, err := p.setUpTargetConn(targURL, checkIntentWithCert)
 		if err != nil {
 			logrus.Info("principal: error setting up target connection")
+			if denial != nil {
+				return WriteIntentDenied(p.delegateConn, denial.Error())
+			}
 			return WriteIntentDenied(p.delegateConn, fmt.Sprintf("principal: target setup failed: %s", err))
 		}
 		p.targetConn = tc
@@ -112,7 +116,11 @@ func (p *principalInstance) doIntentRequestChecks(i Intent) error {
 		p.targetConnected = true
 		logrus.Info("principal: connected to target")
 	} else {
-		p.checkIntent(i, p.targetCert)
+		// Every request needs the principal's approval, not only the one that
+		// opened the target connection.
+		if err := p.checkIntent(i, p.targetCert); err != nil {
+			return WriteIntentDenied(p.delegateConn, err.Error())
+		}
 	}
 
 	err := WriteIntentCommunication(p.targetConn, i)
